@@ -86,6 +86,9 @@ type RunResult struct {
 	BubbleErr string        `json:"bubble_err,omitempty"`
 	TraceHash string        `json:"trace_hash"` // hash of scheduling-relevant trace only
 	PoolReissued int        `json:"pool_reissued"`
+	FinalIDs   map[string]fileID `json:"-"`
+	ProcYields []int        `json:"-"`
+	StepHits   []map[string]int `json:"-"`
 }
 
 var runCounter int
@@ -188,12 +191,15 @@ func Execute(t *testing.T, sc *Scenario, dec *Decider, obs ...Observer) (*RunRes
 	res.Hang = k.Hang
 	res.LimitHit = k.LimitHit
 	res.Final = SnapshotDir(dir)
+	res.FinalIDs = statFiles(dir, sc.Files)
 	res.PoolReissued = k.pool.Reissued
 	for _, p := range k.procs {
 		if p.res == nil {
 			p.res = &ProcResult{ErrText: "process did not finish", ExitCode: -1}
 		}
 		res.Procs = append(res.Procs, p.res)
+		res.ProcYields = append(res.ProcYields, p.yields)
+		res.StepHits = append(res.StepHits, p.stepHits)
 	}
 	h := sha256.New()
 	th := sha256.New()
